@@ -824,6 +824,7 @@ def _expand_value_helpers(decls):
             i += len(extra)
 
 
+RECORD_FIELDS = {}      # record name -> field names in declaration order (all records of the header that were loaded)
 MEMBER_ALIAS = {}       # (record, member) -> the name its reads are spelt with ('first' / 'second' of a pair-like record)
 PAIR_RECORDS = {}       # record name -> (first field, second field)
 
@@ -835,6 +836,10 @@ def _install_member_aliases(decls):
     ordered is judged separately, from its operator<.)"""
     MEMBER_ALIAS.clear()
     PAIR_RECORDS.clear()
+    RECORD_FIELDS.clear()
+    for name_, rec_ in decls.items():
+        if isinstance(rec_, N) and rec_.kind == 'CXXRecordDecl' and ':' not in name_:
+            RECORD_FIELDS[name_] = [k.name for k in rec_.kids if k.kind == 'FieldDecl']
     for name, rec in decls.items():
         if not isinstance(rec, N) or rec.kind != 'CXXRecordDecl' or ':' in name or name in ('cell_item', 'config', 'combinator_result', 'chart', 'matrix', 'cell'):
             continue
@@ -1193,6 +1198,23 @@ def term(n, env=None, _depth=0):
         elif base[0] == 'deref':
             base = base[1]
         name_ = n.name
+        # a field of a two-member record local that a helper of the header returned ({a, b} on every path): the component
+        # the helper computes, as a conditional term over its arguments
+        if env is not None and n.kids and _depth < 30:
+            b_ = strip(n.kids[0])
+            if b_.kind == 'DeclRefExpr' and b_.refid in env.decl and b_.refid not in env.mutated:
+                d_ = env.decl[b_.refid]
+                rt_ = (d_.type or '').replace('const ', '').replace('struct ', '').replace('class ', '').strip(' &').split('::')[-1]
+                flds_ = RECORD_FIELDS.get(rt_)
+                init_ = env.init_of(d_) if d_.kind == 'VarDecl' else None
+                if flds_ and len(flds_) == 2 and name_ in flds_ and init_ is not None and rt_ not in ('cell_item', 'config', 'combinator_result'):
+                    i0_ = strip(init_)
+                    while i0_.kind in ('ExprWithCleanups', 'MaterializeTemporaryExpr', 'CXXBindTemporaryExpr', 'CXXConstructExpr') and len(i0_.kids) == 1:
+                        i0_ = strip(i0_.kids[0])
+                    if i0_.kind == 'CallExpr' and (strip(i0_.kids[0]).ref or '') in getattr(env, 'functions', {}):
+                        got_ = pair_component(env, i0_, flds_.index(name_), _depth + 1)
+                        if got_ is not None:
+                            return got_
         fo_ = getattr(env, 'flat_objects', None) if env is not None else None
         if fo_ and base[0] == 'var' and base[1] in fo_ and name_ in fo_[base[1]]:
             return fo_[base[1]][name_]          # a member of a record local that the model reads as the locals it groups
